@@ -214,7 +214,8 @@ RngFold(st, tape, j) ==
 VirtualOutputs(c, outputs, outs) ==
   \A k \in DOMAIN outputs :
      LET sg == c.signals[c.expIdx[k].sig]
-     IN  sg.dir = "virt" =>
+     \* (a declaration that calls random() is judged by the prediction, which threads the draws: C17)
+     IN  (sg.dir = "virt" /\ ~ExprRandom(sg.vexpr)) =>
            LET v == Eval(sg.vexpr, [env |-> FM_New, outs |-> outs, vars |-> FALSE], [mode |-> "log", tape |-> <<>>], 0)
            IN  v.ok /\ outputs[k].out = Num(v.v)
 
@@ -356,6 +357,19 @@ NextStaticLine(r) ==
 \* kept in a TLC register between runs (trace validation runs on one worker).
 GroupView(d) == [n \in DOMAIN d |-> IF d[n].k = "row" THEN [k |-> "row", off |-> d[n].off, inputs |-> d[n].inputs, exp |-> d[n].exp]
                                      ELSE [k |-> "other", off |-> 0, inputs |-> <<>>, exp |-> <<>>]]
+\* Static = dynamic, item by item (rows: line, input vector with flags, expected values; error items and the end in the same
+\* places), up to the first dynamic item that a static run cannot have (an error of the driver or about its answer) and as
+\* far as both were recorded.  Mid-clock rows of the dynamic run carry no expected values.
+StaticAgrees(S, D) ==
+  LET stops == {i \in DOMAIN D : D[i].k = "err" /\ D[i].why \in {"driver", "count", "order", "missing", "other"}}
+      lim == IF stops = {} THEN Len(D) ELSE MinOf(stops) - 1
+      n == IF Len(S) < lim THEN Len(S) ELSE lim
+  IN  \A i \in 1..n :
+        /\ S[i].k = D[i].k
+        /\ S[i].k = "row" => /\ S[i].line = D[i].line
+                              /\ S[i].inputs = D[i].inputs
+                              /\ (D[i].expected = <<>> \/ S[i].expected = D[i].expected)
+
 EndLine(r) ==
   IF r.group = 0 THEN Quiet
   ELSE LET mine == IF 1 \in DOMAIN its THEN GroupView(its[1].dyn) ELSE <<>>
@@ -378,6 +392,8 @@ Step ==
          \* C15, differential, computed by the harness from two real runs: the first iterator's items while the others were
          \* stepped in between = its items when it runs alone against the same answers
          ELSE IF r.ev = "solo" THEN (IF r.same THEN Quiet ELSE Flag("sched.differ"))
+         \* C15, differential: the items of the static iteration against the items of the first dynamic iterator
+         ELSE IF r.ev = "static_dynamic" THEN (IF StaticAgrees(r.sseq, r.dseq) THEN Quiet ELSE Flag("static.differ"))
          ELSE IF skip THEN Quiet
          ELSE IF r.ev = "try_iter" THEN TryIterLine(r)
          ELSE IF r.ev = "next" THEN
